@@ -114,6 +114,13 @@ Definition check (k : case) : N :=
     forallb (fun cc => forallb (fun a => let '(pts, speed, toks) := a in toks_eq (tol_of c) (array2d c speed pts) toks)
                                (cc_arrays cc)) (k_cols k);
     toks_eq (tol_of c) (file_of (session (k_main_cfg k) (main_ops (k_main_cfg k) (k_main_files k)))) (k_main k)
-  ] ++ monitors k).
+  ] ++ monitors k ++ [
+    (* the number of wall passes is ceil((h_box - z_off) / deltaz) of the column's current parameters (up to 1e-9 at an
+       exact quotient, where the float division may land on either side) *)
+    forallb (fun cc => let d := cc_d cc in
+                       let q := ((c_hbox d - c_zoff d) * t_k (tc c) / c_dz d)%Q in
+                       Qle_bool (q - (1 # 1000000000))%Q (inject_Z (c_nrepeat d))
+                       && Qle_bool (inject_Z (c_nrepeat d)) (q + 1 + (1 # 1000000000))%Q) (k_cols k)
+  ]).
 
 Definition failing (cs : list case) : list (N * N) := failing_from check 0 cs.
